@@ -2357,7 +2357,55 @@ func (e *Bounds) sized1(v ssa.Value, at ssa.Instruction, env *sizeEnv, up int) b
 func (e *Bounds) sizedMapElems(m ssa.Value, env *sizeEnv, up int) bool {
 	cell := Addr(m)
 	if cell == nil {
-		return false
+		// a map that lives in an SSA value of this function (never captured): made here,
+		// every element stored into it (here or in closures) is a size
+		os := Origins(m, false)
+		if len(os) == 0 {
+			return false
+		}
+		made := map[ssa.Value]bool{}
+		var fn *ssa.Function
+		for _, o := range os {
+			mm, ok := o.(*ssa.MakeMap)
+			if !ok {
+				return false
+			}
+			made[mm] = true
+			fn = mm.Parent()
+		}
+		found := false
+		for _, b := range fn.Blocks {
+			for _, in := range b.Instrs {
+				mu, ok := in.(*ssa.MapUpdate)
+				if !ok || !types.Identical(mu.Map.Type(), m.Type()) {
+					continue
+				}
+				for _, o := range Origins(mu.Map, false) {
+					if !made[o] {
+						return false
+					}
+				}
+				found = true
+				if !e.sized(mu.Value, mu, nil, up) {
+					return false
+				}
+			}
+		}
+		for _, o := range os {
+			// the map must not be handed to code that could fill it differently
+			for _, r := range *o.(*ssa.MakeMap).Referrers() {
+				switch x := r.(type) {
+				case *ssa.MapUpdate, *ssa.Lookup, *ssa.DebugRef, *ssa.Range, *ssa.Return, *ssa.Phi:
+				case ssa.CallInstruction:
+					if b, isB := x.Common().Value.(*ssa.Builtin); !isB || (b.Name() != "len" && b.Name() != "delete") {
+						return false
+					}
+				default:
+					return false
+				}
+			}
+		}
+		return found
 	}
 	root := rootCell(cell)
 	al, ok := root.(*ssa.Alloc)
@@ -2368,12 +2416,20 @@ func (e *Bounds) sizedMapElems(m ssa.Value, env *sizeEnv, up int) bool {
 	if !complete {
 		return false
 	}
-	for _, v := range vals {
-		if _, ok := v.(*ssa.MakeMap); !ok {
-			return false // the cell may hold a map built elsewhere
-		}
-	}
 	found := false
+	for _, v := range vals {
+		if _, ok := v.(*ssa.MakeMap); ok {
+			continue
+		}
+		// a map built and returned by a csvq helper: every element the helper stores must be a size
+		if call, idx, ok := ExtractOf(v); ok {
+			if f := call.Common().StaticCallee(); f != nil && f.Blocks != nil && e.P.isOwn(f) && e.sizedMapBuiltBy(f, idx, up) {
+				found = true
+				continue
+			}
+		}
+		return false // the cell may hold a map built elsewhere
+	}
 	var visit func(fn *ssa.Function) bool
 	visit = func(fn *ssa.Function) bool {
 		for _, b := range fn.Blocks {
@@ -2403,6 +2459,76 @@ func (e *Bounds) sizedMapElems(m ssa.Value, env *sizeEnv, up int) bool {
 		return true
 	}
 	return visit(al.Parent()) && found
+}
+
+// sizedMapBuiltBy: result #idx of f is, on every return, a map made in f, and
+// every element f stores into a map of that type goes into such a map and is size-derived.
+func (e *Bounds) sizedMapBuiltBy(f *ssa.Function, idx int, up int) bool {
+	made := map[ssa.Value]bool{}
+	rets := Returns(f)
+	if len(rets) == 0 {
+		return false
+	}
+	var mapType types.Type
+	for _, ret := range rets {
+		if idx >= len(ret.Results) {
+			return false
+		}
+		if ret.Block() == f.Recover && !mayRecover(f) {
+			continue
+		}
+		for _, rv := range ReturnOperand(ret, idx) {
+			if rv == nil {
+				continue // nil map: no elements
+			}
+			for _, o := range Origins(rv, false) {
+				mm, ok := o.(*ssa.MakeMap)
+				if !ok || mm.Parent() != f {
+					if IsNilConst(o) {
+						continue
+					}
+					return false
+				}
+				made[mm] = true
+				mapType = mm.Type()
+			}
+		}
+	}
+	if len(made) == 0 {
+		return false
+	}
+	var fns []*ssa.Function
+	var all func(g *ssa.Function)
+	all = func(g *ssa.Function) {
+		fns = append(fns, g)
+		for _, af := range g.AnonFuncs {
+			all(af)
+		}
+	}
+	all(f)
+	for _, g := range fns {
+		for _, b := range g.Blocks {
+			for _, in := range b.Instrs {
+				mu, ok := in.(*ssa.MapUpdate)
+				if !ok || !types.Identical(mu.Map.Type(), mapType) {
+					continue
+				}
+				os := Origins(mu.Map, false)
+				if len(os) == 0 {
+					return false
+				}
+				for _, o := range os {
+					if !made[o] {
+						return false
+					}
+				}
+				if !e.sized(mu.Value, mu, nil, up) {
+					return false
+				}
+			}
+		}
+	}
+	return true
 }
 
 func (e *Bounds) sizedLoad(x *ssa.UnOp, env *sizeEnv, up int) bool {
